@@ -12,21 +12,49 @@ open TinyFlux.Spec TinyFlux.Model.QHash TinyFlux.Generated
 
 set_option linter.unusedSimpArgs false
 
+/-- the hash tuple of a leaf -/
+def leafTuple (a : Attr) (ks : List String) (l : SLeaf) : List HAtom :=
+  (shapeOf (ctorName a l)).filterMap (comp a ks l)
+
+def cmpOp : Cmp → String
+  | .eq => "==" | .ne => "!=" | .lt => "<" | .le => "<=" | .gt => ">" | .ge => ">="
+
+/-! The hash tuples, computed from the generated table. Each parameter a leaf's meaning depends on
+    occurs in its tuple (these equations fail to check when `queries.py` drops a component). -/
+theorem tup_cmp (a : Attr) (ks : List String) (c : Cmp) (r : PyV) :
+    leafTuple a ks (.cmp c r) = [.attr a, .op (cmpOp c), .path ks, .val r] := by cases c <;> rfl
+theorem tup_exists (a : Attr) (ks : List String) :
+    leafTuple a ks .exists = [.attr a, .op "exists", .path ks] := by cases a <;> rfl
+theorem tup_matches (a : Attr) (ks : List String) (r : String) (f : Nat) :
+    leafTuple a ks (.matches r f) = [.attr a, .op "matches", .path ks, .str r, .nat f] := rfl
+theorem tup_search (a : Attr) (ks : List String) (r : String) (f : Nat) :
+    leafTuple a ks (.search r f) = [.attr a, .op "search", .path ks, .str r, .nat f] := rfl
+theorem tup_test (a : Attr) (ks : List String) (f : Nat) (as : List PyV) :
+    leafTuple a ks (.test f as) = [.attr a, .op "test", .path ks, .fn f, .vals as] := rfl
+
+theorem cmpOp_inj (c c' : Cmp) (h : cmpOp c = cmpOp c') : c = c' := by
+  cases c <;> cases c' <;> first | rfl | (exact absurd h (by decide))
+
 /-- every parameter a leaf's meaning depends on occurs in its hash tuple: equal tuples come from the
     same attribute, the same key path and the same leaf -/
 theorem leaf_hash_inj (a a' : Attr) (ks ks' : List String) (l l' : SLeaf)
-    (h : (shapeOf (ctorName a l)).filterMap (comp a ks l) = (shapeOf (ctorName a' l')).filterMap (comp a' ks' l')) :
-    a = a' ∧ ks = ks' ∧ l = l' := by
+    (h : leafTuple a ks l = leafTuple a' ks' l') : a = a' ∧ ks = ks' ∧ l = l' := by
   cases l <;> cases l' <;>
-    (try rename_i c r c' r' <;> cases c <;> cases c') <;>
-    cases a <;> cases a' <;>
-    simp_all [shapeOf, ctorName, cmpName, hashShape, List.lookup, comp, List.filterMap]
+    simp only [tup_cmp, tup_exists, tup_matches, tup_search, tup_test, List.cons.injEq, HAtom.attr.injEq,
+      HAtom.op.injEq, HAtom.path.injEq, HAtom.val.injEq, HAtom.str.injEq, HAtom.nat.injEq, HAtom.fn.injEq,
+      HAtom.vals.injEq, reduceCtorEq, and_false, false_and, and_true, List.cons_ne_nil, List.nil_eq] at h
+  · obtain ⟨rfl, hc, rfl, rfl⟩ := h
+    exact ⟨rfl, rfl, by rw [cmpOp_inj _ _ hc]⟩
+  · exact ⟨h.1, h.2.2, rfl⟩
+  · obtain ⟨rfl, -, rfl, rfl, rfl⟩ := h; exact ⟨rfl, rfl, rfl⟩
+  · exact absurd h.2.1 (by decide)
+  · exact absurd h.2.1 (by decide)
+  · obtain ⟨rfl, -, rfl, rfl, rfl⟩ := h; exact ⟨rfl, rfl, rfl⟩
+  · obtain ⟨rfl, -, rfl, rfl, rfl⟩ := h; exact ⟨rfl, rfl, rfl⟩
 
 /-- a leaf's hash tuple is never the empty tuple -/
-theorem leaf_hash_ne_nil (a : Attr) (ks : List String) (l : SLeaf) :
-    (shapeOf (ctorName a l)).filterMap (comp a ks l) ≠ [] := by
-  cases l <;> (try rename_i c r <;> cases c) <;> cases a <;>
-    simp [shapeOf, ctorName, cmpName, hashShape, List.lookup, comp, List.filterMap]
+theorem leaf_hash_ne_nil (a : Attr) (ks : List String) (l : SLeaf) : leafTuple a ks l ≠ [] := by
+  cases l <;> simp [tup_cmp, tup_exists, tup_matches, tup_search, tup_test]
 
 theorem keysOf_eq {p : List Step} {ks : List String} (h : keysOf p = some ks) : p = ks.map .key := by
   induction p generalizing ks with
